@@ -4,7 +4,7 @@
     root at offset 0; `source_file` succeeds exactly on a SourceFile root. *)
 From Coq Require Import List Arith PeanoNat NArith Bool String Lia.
 From TG.Gen Require Import GenTokens GenLexer GenPrep GenParser GenLibGlue.
-From TG.Model Require Import Chars Tree ScanMonad PrepMonad ParserPrims ParserMonad GInterp AstToCore RowanApi.
+From TG.Model Require Import Chars Tree ScanMonad PrepMonad ParserPrims ParserMonad GInterp LibGlueApi.
 From TG.Proofs Require Import GenParserEq.
 Import ListNotations.
 
@@ -24,7 +24,7 @@ Qed.
 
 Theorem kind_from_raw_inverse raw k : glib_kind_from_raw raw = Some k -> glib_kind_to_raw k = raw.
 Proof.
-  unfold glib_kind_from_raw, glib_kind_to_raw, sk_as_u16, sk_transmute, sk_last, am_panic.
+  unfold glib_kind_from_raw, glib_kind_to_raw, sk_as_u16, sk_transmute, sk_last, lm_panic.
   destruct (Nat.ltb raw (List.length all_syntax_kinds)) eqn:L; [|discriminate]. intros H.
   (* all_syntax_kinds lists every kind at its own index *)
   pose proof (sk_nth k) as Hk.
